@@ -1169,3 +1169,7 @@ M("C07-right-shift-in-unsigned-domain", "C07", "src/cppparser/cppExpression.cxx"
 M("C07-benign-left-shift-in-unsigned-domain", "C07", "src/cppparser/cppExpression.cxx",
   "      return Result(r1.as_integer() << r2.as_integer());", "      return Result((int)((unsigned int)r1.as_integer() << r2.as_integer()));",
   benign=True)
+
+M("C06-base-scope-lookup-recurses", "C06", "src/cppparser/cppScope.cxx",
+  "        CPPType *type = st->_scope->find_type(name, false);", "        CPPType *type = st->_scope->find_type(name, recurse);",
+  expect="R06.8|CPPScope::find_type")
